@@ -12,6 +12,31 @@ from . import common
 from .common import Result, InternalError
 
 
+def _install_cover(prop, seed):
+    """VERIF_COVER=<dir>: record which lines of the implementation this check executes (tools/cover_report.py lists what no
+    check reaches - candidates for new generator dimensions).  Measurement only; never part of a registered command."""
+    import atexit
+    out = os.environ["VERIF_COVER"]
+    os.makedirs(out, exist_ok=True)
+    root = os.path.join(common.REPO, "relsad") + os.sep
+    mon = sys.monitoring
+    tid = mon.COVERAGE_ID
+    mon.use_tool_id(tid, "verif-cover")
+    hit = set()
+
+    def on_line(code, line):
+        fn = code.co_filename
+        if fn.startswith(root):
+            hit.add((fn[len(root):], line))
+        return mon.DISABLE
+    mon.register_callback(tid, mon.events.LINE, on_line)
+    mon.set_events(tid, mon.events.LINE)
+
+    def dump():
+        json.dump(sorted(hit), open(os.path.join(out, f"{prop}-{seed}-{os.getpid()}.json"), "w"))
+    atexit.register(dump)
+
+
 def main():
     ap = argparse.ArgumentParser()
     ap.add_argument("prop")
@@ -26,6 +51,8 @@ def main():
         seed = 0
     common.setup_impl_path()
     common.ensure_dirs()
+    if os.environ.get("VERIF_COVER") and hasattr(sys, "monitoring"):
+        _install_cover(prop, seed)
     try:
         mod = importlib.import_module(f"harness.{prop.lower()}")
     except ModuleNotFoundError:
